@@ -23,6 +23,7 @@ import Props.C01
 import Proofs.StructEdit
 import Proofs.Structure2
 import Props.C18
+import Proofs.SplitSuccess
 namespace PM.C12
 open PM
 
@@ -561,5 +562,84 @@ example : canJoin cexSchema cexDoc 3 = some (some true) := by rfl
 example : joinPoint cexSchema cexDoc 3 (-1) = some (some 3) := by rfl
 /-- … and the join is refused by `check_join` -/
 example : cexSchema.compatibleContent 2 1 = false := by rfl
+
+/-! ### an approved split applies
+
+    The unguarded statement
+      `canSplit S doc pos depth = some true → splitStep doc pos depth = .ok st → ∃ doc', S.apply st doc = .ok doc'`
+    is **false** for the model and for the code alike (upstream too): when the cut falls *inside* a text
+    child, `can_split` validates the parent's children *before* that text (`can_replace(index, child_count)`)
+    and the children from it on (`valid_content(cut_by_index(index, …))`), but the left half also contains
+    the first part of the text.  With content `(text image)*` and the paragraph `p("ab", image)`,
+    `can_split(doc, 2)` approves and `Transform.split(2)` raises `TransformError("Invalid content for node p")`
+    (`splitCex…` below).  `splitGuard` (PM/Structure.lean) asks for `can_replace(index + 1, child_count)` in
+    that case; it holds at every cut that is not strictly inside a text child, and for every `text*` /
+    `inline*` textblock.  Nothing else is needed: no `TextStable`, the two text halves never become
+    neighbours. -/
+
+/-- **`can_split` approves ⇒ `split` succeeds** with a schema-valid document that keeps the text and leaf
+    nodes: valid normal-form document, pair-aligned position, and `splitGuard`. (`pos` in range and
+    `1 ≤ depth ≤ depth of pos` are implied by the approval.) -/
+theorem canSplit_split_applies (S : Schema) (doc : Node) (pos depth : Nat) (st : Step)
+    (hv : C01.Valid S doc) (hn : fnorm doc.kids = true) (hal : pairAligned doc pos = true)
+    (hg : splitGuard S doc pos = true)
+    (hc : canSplit S doc pos depth = some true) (hb : splitStep doc pos depth = .ok st) :
+    ∃ doc', S.apply st doc = .ok doc' ∧ C01.Valid S doc' ∧
+      (ftoks doc'.kids).filter Tok.isContent = (ftoks doc.kids).filter Tok.isContent := by
+  unfold canSplit at hc
+  cases hr : doc.resolve pos with
+  | none => simp [hr] at hc
+  | some r =>
+    simp only [hr] at hc
+    obtain ⟨hd1, hdd, _⟩ := canSplitR_true S r depth hc
+    have R := resolve_resolved hr
+    have hal' : r.pairOk = true := by simpa [pairAligned, hr] using hal
+    have hg' : splitGuardR S r = true := by simpa [splitGuard, hr] using hg
+    cases doc with
+    | text s m => have := R.depth_eq; simp [Node.kids, depthAt] at this; omega
+    | leaf t a m => have := R.depth_eq; simp [Node.kids, depthAt] at this; omega
+    | elem ty0 a0 m0 K =>
+      obtain ⟨doc', hap⟩ := split_applies S ty0 a0 m0 K pos depth r st hr hv hn hal' hg' hd1 hc hb
+      obtain ⟨sl, rfl, hsl⟩ := split_payload S depth st hr hv hd1 hdd hb
+      exact ⟨doc', hap, C01.apply_valid S (.replace pos pos sl true) _ doc' hv hsl hap,
+        split_keeps_content S _ doc' pos depth _ hb hap⟩
+
+/-- the guard is needed: content `(text image)*`, the paragraph `p("ab", image)` cut inside the text -/
+private def splitCexSchema : Schema :=
+  { nodes := #[cexNT "doc" false #[⟨false, [(1, 1)]⟩, ⟨true, [(1, 1)]⟩],
+      cexNT "p" false #[⟨true, [(2, 1)]⟩, ⟨false, [(3, 0)]⟩],
+      { cexNT "text" true #[⟨true, []⟩] with isText := true, isInline := true },
+      { cexNT "image" true #[⟨true, []⟩] with isInline := true }],
+    marks := #[], top := 0, textTy := 2 }
+
+private def splitCexDoc : Node := .elem 0 [] [] [.elem 1 [] [] [.text [97, 98] [], .leaf 3 [] []]]
+
+example : C01.Valid splitCexSchema splitCexDoc := by rfl
+example : fnorm splitCexDoc.kids = true := by rfl
+example : pairAligned splitCexDoc 2 = true := by rfl
+/-- the helper approves … -/
+example : canSplit splitCexSchema splitCexDoc 2 1 = some true := by rfl
+/-- … the guard does not hold … -/
+example : splitGuard splitCexSchema splitCexDoc 2 = false := by rfl
+/-- … and the split is refused: the left half `p("a")` is not valid content -/
+example : splitStep splitCexDoc 2 1 = .ok (.replace 2 2 ⟨[.elem 1 [] [] [], .elem 1 [] [] []], 1, 1⟩ true) := by rfl
+example : splitCexSchema.apply (.replace 2 2 ⟨[.elem 1 [] [] [], .elem 1 [] [] []], 1, 1⟩ true) splitCexDoc
+    = .error .failed := by
+  have hc : contentBetween splitCexDoc 2 2 = some false := by
+    obtain ⟨r, hr⟩ := resolve_isSome splitCexDoc 2 (by decide)
+    exact contentBetween_empty _ _ r hr
+  have hv : splitCexSchema.validContent 1 [.text [97] []] = false := by decide
+  unfold splitCexDoc at hc
+  simp [Schema.apply, hc, Schema.fromReplace, Schema.replace, splitCexDoc, replaceKids,
+    inRange, depthAt, Slice.wf, spineL, spineR, outer, atLevel, threeWay, threeWay.rightJoinCheck, twoWay,
+    splitRight, splitOk, isHigh, isLow, Schema.close, fromArray, addNodes, addNode, hv,
+    Except.map, Schema.compatibleContent]
+/-- at the node boundaries of the same paragraph the guard holds and the split applies -/
+example : splitGuard splitCexSchema splitCexDoc 1 = true ∧ canSplit splitCexSchema splitCexDoc 1 1 = some true := by
+  exact ⟨rfl, rfl⟩
+/-- a non-trivial instance of all hypotheses: `exDoc` cut inside the text of the first paragraph, two levels -/
+example : C01.Valid exSchema exDoc ∧ fnorm exDoc.kids = true ∧ pairAligned exDoc 3 = true ∧
+    splitGuard exSchema exDoc 3 = true ∧ canSplit exSchema exDoc 3 2 = some true := by
+  exact ⟨rfl, rfl, rfl, rfl, rfl⟩
 
 end PM.C12
